@@ -202,6 +202,22 @@ class Path:
         def run(ts):
             out = []
             for q in list(self.qhyps):
+                if getattr(q, "arity", 1) == 2:
+                    small = ts[:14]
+                    for t1 in small:
+                        for t2 in small:
+                            key = (id(q), t1.get_id(), t2.get_id())
+                            if key in cache:
+                                f = cache[key]
+                            else:
+                                try:
+                                    f = q(t1, t2)
+                                except Exception:
+                                    f = None
+                                cache[key] = f
+                            if f is not None:
+                                out.append(f)
+                    continue
                 for t in ts:
                     key = (id(q), t.get_id())
                     if key in cache:
